@@ -199,6 +199,14 @@ def _standard_sampler(ctx, nlive, model):
     fp._populate_dist = lambda: None
     fp._checked_population = True
     fp.acceptance = [ctx.real("acc0")]
+    # reparameterisation state after a data-dependent update (bounds learnt from the live points)
+    from nessai.reparameterisations.rescale import RescaleToBounds
+    from nessai.reparameterisations.combined import CombinedReparameterisation
+    rb = RescaleToBounds(parameters=["x"], prior_bounds={"x": [-5.0, 5.0]}, update_bounds=True)
+    rb.bounds = {"x": [ctx.real("rb_lo"), ctx.real("rb_hi")]}
+    comb = CombinedReparameterisation()
+    comb.add_reparameterisations([rb])
+    fp._reparameterisation = comb
 
     def initialise(resumed=False):
         fp2 = initialise.target
